@@ -16,7 +16,7 @@ open ScnVerif ScnVerif.Cylinder
     interval (covers the parallel case, where the interval is the whole line or empty) -/
 theorem cyl_interval_iff (a b n : V3 ℝ) (r t : ℝ) (ha : V3.dot a a = 1) (hr : 0 ≤ r) :
     V3.norm (V3.cross (V3.sub (V3.smul t n) b) a) ≤ r ↔ (lineInfiniteCylinder a b r n).Mem t := by
-  rw [norm_le_iff _ _ hr]
+  rw [norm_le_iff _ _ hr, lineInfiniteCylinder_eq_old]
   have hexp : V3.dot (V3.cross (V3.sub (V3.smul t n) b) a) (V3.cross (V3.sub (V3.smul t n) b) a)
       = V3.dot (V3.cross n a) (V3.cross n a) * t ^ 2 - 2 * V3.dot (V3.cross n a) (V3.cross b a) * t
         + V3.dot (V3.cross b a) (V3.cross b a) := by
@@ -33,7 +33,7 @@ theorem cyl_interval_iff (a b n : V3 ℝ) (r t : ℝ) (ha : V3.dot a a = 1) (hr 
         = V3.dot (V3.cross b a) (V3.cross b a) := by
       simp only [V3.dot, V3.cross, V3.sub, V3.smul] at ha ⊢
       linear_combination (-((b.x * b.x + b.y * b.y + b.z * b.z) - (b.x * a.x + b.y * a.y + b.z * a.z) ^ 2)) * ha
-    simp only [lineInfiniteCylinder, hz, if_true, Itv.Mem, decide_eq_true_eq]
+    simp only [lineInfiniteCylinderOld, hz, if_true, Itv.Mem, decide_eq_true_eq]
     rw [hexp, hq, hm, norm_le_iff _ _ hr, hperp]
     constructor
     · intro h; exact ⟨by linarith, by simp, by simp⟩
@@ -52,7 +52,7 @@ theorem cyl_interval_iff (a b n : V3 ℝ) (r t : ℝ) (ha : V3.dot a a = 1) (hr 
     have hq2 := quad_le_iff (V3.dot (V3.cross n a) (V3.cross n a)) (V3.dot (V3.cross n a) (V3.cross b a))
       (V3.dot (V3.cross b a) (V3.cross b a) - r ^ 2) t hqpos
     rw [hdisc] at hq2
-    simp only [lineInfiniteCylinder, hz, Bool.false_eq_true, if_false, Itv.Mem, decide_eq_true_eq,
+    simp only [lineInfiniteCylinderOld, hz, Bool.false_eq_true, if_false, Itv.Mem, decide_eq_true_eq,
       Option.some.injEq, forall_eq', trans_sqrt_real]
     rw [hexp, ← hq2]
     constructor <;> intro h <;> linarith
@@ -702,34 +702,12 @@ theorem frame_exactness (ε : ℝ) (disk : List (ℝ × ℝ × ℝ)) (line : Lis
     intro m h; rw [abs_mul]; exact mul_le_mul_of_nonneg_right h (abs_nonneg _)
   exact ⟨key _ _ hd.m00, key0 _ hd.m10, key0 _ hd.m01, key _ _ hd.m20, key0 _ hd.m11, key _ _ hd.m02⟩
 
-/-- the variant of `_line_infinite_cylinder_intersection` proposed in
-    `proposed_fixes/C18-near-axis-ray-rounding.patch` (projects `n × a` and `b` onto the plane
-    perpendicular to the axis before use) -/
-noncomputable def lineInfiniteCylinderFixed (a b : V3 ℝ) (r : ℝ) (n : V3 ℝ) : Itv ℝ :=
-  let nxa0 := V3.cross n a
-  let nxa := V3.sub nxa0 (V3.smul (V3.dot nxa0 a) a)
-  let bp := V3.sub b (V3.smul (V3.dot b a) a)
-  let q := V3.dot nxa nxa
-  let bn := V3.dot bp nxa
-  let s2 := q * (r * r) - bn * bn
-  let s := Trans.sqrt s2
-  let m := V3.dot nxa (V3.cross bp a)
-  let originIn := decide (V3.norm bp ≤ r)
-  if isZero q then ⟨originIn, none, none⟩
-  else ⟨decide ((0 : ℝ) ≤ s2), some ((m - s) / q), some ((m + s) / q)⟩
-
-/-- over the reals the proposed repair computes exactly what the current code computes (for every
-    axis, unit or not): it only changes the floating-point behaviour -/
-theorem fixed_variant_same (a b n : V3 ℝ) (r : ℝ) :
-    lineInfiniteCylinderFixed a b r n = lineInfiniteCylinder a b r n := by
-  have h0 : V3.dot (V3.cross n a) a = 0 := by simp only [V3.dot, V3.cross]; ring
-  have h1 : V3.sub (V3.cross n a) (V3.smul (V3.dot (V3.cross n a) a) a) = V3.cross n a := by
-    rw [h0]; simp only [V3.sub, V3.smul, V3.cross]; congr 1 <;> ring
-  have h2 : V3.dot (V3.sub b (V3.smul (V3.dot b a) a)) (V3.cross n a) = V3.dot b (V3.cross n a) := by
-    simp only [V3.dot, V3.sub, V3.smul, V3.cross]; ring
-  have h3 : V3.cross (V3.sub b (V3.smul (V3.dot b a) a)) a = V3.cross b a := by
-    simp only [V3.dot, V3.sub, V3.smul, V3.cross, V3.mk.injEq]; refine ⟨?_, ?_, ?_⟩ <;> ring
-  simp only [lineInfiniteCylinderFixed, lineInfiniteCylinder, h1, h2, h3]
+/-- the formula used before fix ef5a368 (`lineInfiniteCylinderOld`, kept in the model as a named variant) is the
+    same function over the reals as the current code, for every axis (unit or not): the fix only changes
+    the floating-point behaviour. All theorems above are about the current code. -/
+theorem old_variant_same (a b n : V3 ℝ) (r : ℝ) :
+    lineInfiniteCylinderOld a b r n = lineInfiniteCylinder a b r n :=
+  (lineInfiniteCylinder_eq_old a b n r).symm
 
 /-- the coded rotation has an adjoint that preserves length: `g · (R v) = g' · v` with `|g'| = |g|` -/
 theorem axisRotation_adjoint (eps : ℝ) (a g : V3 ℝ) (ha : V3.dot a a = 1) (heps : 0 < eps) :
